@@ -186,6 +186,10 @@ class Cluster(object):
         for k, v in self.__equalitymap__.items():
             if other.__equalitymap__[k] != v: return False
         if self.__transition__:
+            # the transition-state pair has to sit at the same place relative to the whole cluster
+            if {(cs.ci, self.__shift_pos__(cs)) for cs in self.sites[:2]} != \
+                    {(cs.ci, other.__shift_pos__(cs)) for cs in other.sites[:2]}:
+                return False
             # TSself, TSother = self.transitionstate(), other.transitionstate()
             # if TSself != TSother:
             #     R0 = TSother[1].R
